@@ -1,6 +1,6 @@
 /-
   PINS of property C04: the decision tokens of every item the property is anchored in
-  (properties.jsonl `anchors` + tools/anchor_extra.json), as they were in /repo at 32de816 when the
+  (properties.jsonl `anchors` + tools/anchor_extra.json), as they were in /repo at 770977e when the
   model was validated against the source.  Written by tools/pin_anchors.py; the right-hand sides are
   compared by the kernel with lean/Chrono/Extracted/Anchors.lean, which tools/extractors/anchors.py
   regenerates from /repo's working tree on every check.  A theorem that fails here means: anchored
@@ -26,6 +26,14 @@ theorem src_datetime_mod_rs_fn_checked_sub_days : C04_src_datetime_mod_rs_fn_che
 theorem src_datetime_mod_rs_fn_checked_sub_months : C04_src_datetime_mod_rs_fn_checked_sub_months =
     ["self", "v1", "Months", "->", "Option", "<", "DateTime", "<", "Tz", ">>", "self", "overflowing_naive_local(", "checked_sub_months(", "v1", "?", "and_local_timezone(", "Tz", "from_offset(", "&", "self", "v2", "single("] := by decide +kernel
 
+/-- src/datetime/mod.rs:fn date -/
+theorem src_datetime_mod_rs_fn_date : C04_src_datetime_mod_rs_fn_date =
+    ["&", "self", "->", "Date", "<", "Tz", ">", "Date", "from_utc(", "self", "naive_local(", "date(", "self", "v1", "clone("] := by decide +kernel
+
+/-- src/datetime/mod.rs:fn date_naive -/
+theorem src_datetime_mod_rs_fn_date_naive : C04_src_datetime_mod_rs_fn_date_naive =
+    ["&", "self", "->", "NaiveDate", "self", "naive_local(", "date("] := by decide +kernel
+
 /-- src/datetime/mod.rs:fn fixed_offset -/
 theorem src_datetime_mod_rs_fn_fixed_offset : C04_src_datetime_mod_rs_fn_fixed_offset =
     ["&", "self", "->", "DateTime", "<", "FixedOffset", ">", "self", "with_timezone(", "&", "self", "offset(", "fix("] := by decide +kernel
@@ -37,6 +45,14 @@ theorem src_datetime_mod_rs_fn_format : C04_src_datetime_mod_rs_fn_format =
 /-- src/datetime/mod.rs:fn format_with_items -/
 theorem src_datetime_mod_rs_fn_format_with_items : C04_src_datetime_mod_rs_fn_format_with_items =
     ["<", "I", "B", ">", "&", "self", "v1", "I", "->", "DelayedFormat", "<", "I", ">", "I", "Iterator", "<", "Item", "B", ">", "+", "Clone", "B", "Borrow", "<", "Item", "<", ">>", "v2", "self", "overflowing_naive_local(", "DelayedFormat", "new_with_offset(", "Some(", "v2", "date(", "Some(", "v2", "time(", "&", "self", "v3", "v1"] := by decide +kernel
+
+/-- src/datetime/mod.rs:fn from_local -/
+theorem src_datetime_mod_rs_fn_from_local : C04_src_datetime_mod_rs_fn_from_local =
+    ["v1", "NaiveDateTime", "v2", "Tz", "Offset", "->", "DateTime", "<", "Tz", ">", "v3", "v1", "-", "v2", "fix(", "DateTime", "v1", "v3", "v2"] := by decide +kernel
+
+/-- src/datetime/mod.rs:fn from_utc -/
+theorem src_datetime_mod_rs_fn_from_utc : C04_src_datetime_mod_rs_fn_from_utc =
+    ["v1", "NaiveDateTime", "v2", "Tz", "Offset", "->", "DateTime", "<", "Tz", ">", "DateTime", "v1", "v2"] := by decide +kernel
 
 /-- src/datetime/mod.rs:fn map_local -/
 theorem src_datetime_mod_rs_fn_map_local : C04_src_datetime_mod_rs_fn_map_local =
@@ -78,6 +94,10 @@ theorem src_datetime_mod_rs_fn_with_time : C04_src_datetime_mod_rs_fn_with_time 
 theorem src_datetime_mod_rs_fn_with_timezone : C04_src_datetime_mod_rs_fn_with_timezone =
     ["<", "Tz2", "TimeZone", ">", "&", "self", "v1", "&", "Tz2", "->", "DateTime", "<", "Tz2", ">", "v1", "from_utc_datetime(", "&", "self", "v2"] := by decide +kernel
 
+/-- src/datetime/mod.rs:impl Add for DateTime -/
+theorem src_datetime_mod_rs_impl_Add_for_DateTime : C04_src_datetime_mod_rs_impl_Add_for_DateTime =
+    ["<", "Tz", "TimeZone", ">", "Add", "<", "TimeDelta", ">", "for", "DateTime", "<", "Tz", ">", "Output", "DateTime", "<", "Tz", ">", "add(", "self", "v1", "TimeDelta", "->", "DateTime", "<", "Tz", ">", "self", "checked_add_signed(", "v1", "expect(", "\"…\"", "§", "<", "Tz", "TimeZone", ">", "Add", "<", "Duration", ">", "for", "DateTime", "<", "Tz", ">", "Output", "DateTime", "<", "Tz", ">", "add(", "self", "v1", "Duration", "->", "DateTime", "<", "Tz", ">", "v1", "TimeDelta", "from_std(", "v1", "expect(", "\"…\"", "self", "checked_add_signed(", "v1", "expect(", "\"…\"", "§", "<", "Tz", "TimeZone", ">", "Add", "<", "FixedOffset", ">", "for", "DateTime", "<", "Tz", ">", "Output", "DateTime", "<", "Tz", ">", "add(", "self", "v1", "FixedOffset", "->", "DateTime", "<", "Tz", ">", "self", "v2", "self", "naive_utc(", "checked_add_offset(", "v1", "expect(", "\"…\"", "self", "§", "<", "Tz", "TimeZone", ">", "Add", "<", "Months", ">", "for", "DateTime", "<", "Tz", ">", "Output", "DateTime", "<", "Tz", ">", "add(", "self", "v1", "Months", "->", "Self", "Output", "self", "checked_add_months(", "v1", "expect(", "\"…\"", "§", "<", "Tz", "TimeZone", ">", "Add", "<", "Days", ">", "for", "DateTime", "<", "Tz", ">", "Output", "DateTime", "<", "Tz", ">", "add(", "self", "v1", "Days", "->", "Self", "Output", "self", "checked_add_days(", "v1", "expect(", "\"…\""] := by decide +kernel
+
 /-- src/datetime/mod.rs:impl Datelike -/
 theorem src_datetime_mod_rs_impl_Datelike : C04_src_datetime_mod_rs_impl_Datelike =
     ["<", "Tz", "TimeZone", ">", "Datelike", "for", "DateTime", "<", "Tz", ">", "year(", "&", "self", "->", "i32", "self", "overflowing_naive_local(", "year(", "month(", "&", "self", "->", "u32", "self", "overflowing_naive_local(", "month(", "month0(", "&", "self", "->", "u32", "self", "overflowing_naive_local(", "month0(", "day(", "&", "self", "->", "u32", "self", "overflowing_naive_local(", "day(", "day0(", "&", "self", "->", "u32", "self", "overflowing_naive_local(", "day0(", "ordinal(", "&", "self", "->", "u32", "self", "overflowing_naive_local(", "ordinal(", "ordinal0(", "&", "self", "->", "u32", "self", "overflowing_naive_local(", "ordinal0(", "weekday(", "&", "self", "->", "Weekday", "self", "overflowing_naive_local(", "weekday(", "iso_week(", "&", "self", "->", "IsoWeek", "self", "overflowing_naive_local(", "iso_week(", "with_year(", "&", "self", "v1", "i32", "->", "Option", "<", "DateTime", "<", "Tz", ">>", "map_local(", "self", "|", "v2", "|", "match", "v2", "year(", "==", "v1", "true", "=>", "Some(", "v2", "false", "=>", "v2", "with_year(", "v1", "with_month(", "&", "self", "v3", "u32", "->", "Option", "<", "DateTime", "<", "Tz", ">>", "map_local(", "self", "|", "v4", "|", "v4", "with_month(", "v3", "with_month0(", "&", "self", "v5", "u32", "->", "Option", "<", "DateTime", "<", "Tz", ">>", "map_local(", "self", "|", "v4", "|", "v4", "with_month0(", "v5", "with_day(", "&", "self", "v6", "u32", "->", "Option", "<", "DateTime", "<", "Tz", ">>", "map_local(", "self", "|", "v4", "|", "v4", "with_day(", "v6", "with_day0(", "&", "self", "v7", "u32", "->", "Option", "<", "DateTime", "<", "Tz", ">>", "map_local(", "self", "|", "v4", "|", "v4", "with_day0(", "v7", "with_ordinal(", "&", "self", "v8", "u32", "->", "Option", "<", "DateTime", "<", "Tz", ">>", "map_local(", "self", "|", "v4", "|", "v4", "with_ordinal(", "v8", "with_ordinal0(", "&", "self", "v9", "u32", "->", "Option", "<", "DateTime", "<", "Tz", ">>", "map_local(", "self", "|", "v4", "|", "v4", "with_ordinal0(", "v9"] := by decide +kernel
@@ -89,6 +109,10 @@ theorem src_datetime_mod_rs_impl_Debug_for_DateTime : C04_src_datetime_mod_rs_im
 /-- src/datetime/mod.rs:impl Display for DateTime -/
 theorem src_datetime_mod_rs_impl_Display_for_DateTime : C04_src_datetime_mod_rs_impl_Display_for_DateTime =
     ["<", "Tz", "TimeZone", ">", "DateTime", "<", "Tz", ">", "Tz", "Offset", "v1", "Display", "v2", "<", "I", "B", ">", "&", "self", "v3", "I", "->", "DelayedFormat", "<", "I", ">", "I", "Iterator", "<", "Item", "B", ">", "+", "Clone", "B", "Borrow", "<", "Item", "<", ">>", "v4", "self", "overflowing_naive_local(", "DelayedFormat", "new_with_offset(", "Some(", "v4", "date(", "Some(", "v4", "time(", "&", "self", "v5", "v3", "v6", "<", ">", "&", "self", "v1", "&", "str", "->", "DelayedFormat", "<", "StrftimeItems", "<", ">>", "self", "format_with_items(", "StrftimeItems", "new(", "v1", "v7", "<", "I", "B", ">", "&", "self", "v3", "I", "v8", "Locale", "->", "DelayedFormat", "<", "I", ">", "I", "Iterator", "<", "Item", "B", ">", "+", "Clone", "B", "Borrow", "<", "Item", "<", ">>", "v4", "self", "overflowing_naive_local(", "DelayedFormat", "new_with_offset_and_locale(", "Some(", "v4", "date(", "Some(", "v4", "time(", "&", "self", "v5", "v3", "v8", "v9", "<", ">", "&", "self", "v1", "&", "str", "v8", "Locale", "->", "DelayedFormat", "<", "StrftimeItems", "<", ">>", "self", "format_localized_with_items(", "StrftimeItems", "new_with_locale(", "v1", "v8", "v8", "§", "<", "Tz", "TimeZone", ">", "v1", "Display", "for", "DateTime", "<", "Tz", ">", "Tz", "Offset", "v1", "Display", "fmt(", "&", "self", "v2", "&", "v1", "Formatter", "->", "v1", "Result", "self", "overflowing_naive_local(", "fmt(", "v2", "?", "v2", "write_char(", "' '", "?", "self", "v3", "fmt(", "v2"] := by decide +kernel
+
+/-- src/datetime/mod.rs:impl From for DateTime -/
+theorem src_datetime_mod_rs_impl_From_for_DateTime : C04_src_datetime_mod_rs_impl_From_for_DateTime =
+    ["From", "<", "DateTime", "<", "Utc", ">>", "for", "DateTime", "<", "FixedOffset", ">", "from(", "v1", "DateTime", "<", "Utc", ">", "->", "Self", "v1", "with_timezone(", "&", "FixedOffset", "east_opt(", "0", "unwrap(", "§", "From", "<", "DateTime", "<", "Utc", ">>", "for", "DateTime", "<", "Local", ">", "from(", "v1", "DateTime", "<", "Utc", ">", "->", "Self", "v1", "with_timezone(", "&", "Local", "§", "From", "<", "DateTime", "<", "FixedOffset", ">>", "for", "DateTime", "<", "Utc", ">", "from(", "v1", "DateTime", "<", "FixedOffset", ">", "->", "Self", "v1", "with_timezone(", "&", "Utc", "§", "From", "<", "DateTime", "<", "FixedOffset", ">>", "for", "DateTime", "<", "Local", ">", "from(", "v1", "DateTime", "<", "FixedOffset", ">", "->", "Self", "v1", "with_timezone(", "&", "Local", "§", "From", "<", "DateTime", "<", "Local", ">>", "for", "DateTime", "<", "Utc", ">", "from(", "v1", "DateTime", "<", "Local", ">", "->", "Self", "v1", "with_timezone(", "&", "Utc", "§", "From", "<", "DateTime", "<", "Local", ">>", "for", "DateTime", "<", "FixedOffset", ">", "from(", "v1", "DateTime", "<", "Local", ">", "->", "Self", "v1", "with_timezone(", "&", "v1", "offset(", "fix(", "§", "From", "<", "SystemTime", ">", "for", "DateTime", "<", "Utc", ">", "from(", "v1", "SystemTime", "->", "DateTime", "<", "Utc", ">", "let(", "v2", "v3", "match", "v1", "duration_since(", "UNIX_EPOCH", "Ok(", "v4", "=>", "v4", "as_secs(", "as", "i64", "v4", "subsec_nanos(", "Err(", "v5", "=>", "v4", "v5", "duration(", "let(", "v2", "v3", "v4", "as_secs(", "as", "i64", "v4", "subsec_nanos(", "if", "v3", "==", "0", "-", "v2", "0", "else", "-", "v2", "-", "1", "1000000000", "-", "v3", "Utc", "timestamp_opt(", "v2", "v3", "unwrap(", "§", "From", "<", "SystemTime", ">", "for", "DateTime", "<", "Local", ">", "from(", "v1", "SystemTime", "->", "DateTime", "<", "Local", ">", "DateTime", "<", "Utc", ">", "from(", "v1", "with_timezone(", "&", "Local", "§", "<", "Tz", "TimeZone", ">", "From", "<", "DateTime", "<", "Tz", ">>", "for", "SystemTime", "from(", "v1", "DateTime", "<", "Tz", ">", "->", "SystemTime", "v2", "v1", "timestamp(", "v3", "v1", "timestamp_subsec_nanos(", "if", "v2", "<", "0", "UNIX_EPOCH", "-", "Duration", "new(", "-", "v2", "as", "u64", "0", "+", "Duration", "new(", "0", "v3", "else", "UNIX_EPOCH", "+", "Duration", "new(", "v2", "as", "u64", "v3", "§", "From", "<", "v1", "Date", ">", "for", "DateTime", "<", "Utc", ">", "from(", "v2", "v1", "Date", "->", "DateTime", "<", "Utc", ">", "DateTime", "<", "Utc", ">", "from(", "&", "v2", "§", "From", "<", "&", "v1", "Date", ">", "for", "DateTime", "<", "Utc", ">", "from(", "v2", "&", "v1", "Date", "->", "DateTime", "<", "Utc", ">", "Utc", "timestamp_millis_opt(", "v2", "get_time(", "as", "i64", "unwrap(", "§", "From", "<", "DateTime", "<", "Utc", ">>", "for", "v1", "Date", "from(", "v2", "DateTime", "<", "Utc", ">", "->", "v1", "Date", "v3", "v4", "JsValue", "from_f64(", "v2", "timestamp_millis(", "as", "f64", "v1", "Date", "new(", "&", "v3"] := by decide +kernel
 
 /-- src/datetime/mod.rs:impl Hash for DateTime -/
 theorem src_datetime_mod_rs_impl_Hash_for_DateTime : C04_src_datetime_mod_rs_impl_Hash_for_DateTime =
@@ -105,6 +129,10 @@ theorem src_datetime_mod_rs_impl_PartialEq_for_DateTime : C04_src_datetime_mod_r
 /-- src/datetime/mod.rs:impl PartialOrd for DateTime -/
 theorem src_datetime_mod_rs_impl_PartialOrd_for_DateTime : C04_src_datetime_mod_rs_impl_PartialOrd_for_DateTime =
     ["<", "Tz", "TimeZone", "Tz2", "TimeZone", ">", "PartialOrd", "<", "DateTime", "<", "Tz2", ">>", "for", "DateTime", "<", "Tz", ">", "partial_cmp(", "&", "self", "v1", "&", "DateTime", "<", "Tz2", ">", "->", "Option", "<", "Ordering", ">", "self", "v2", "partial_cmp(", "&", "v1", "v2"] := by decide +kernel
+
+/-- src/datetime/mod.rs:impl Sub for DateTime -/
+theorem src_datetime_mod_rs_impl_Sub_for_DateTime : C04_src_datetime_mod_rs_impl_Sub_for_DateTime =
+    ["<", "Tz", "TimeZone", ">", "Sub", "<", "TimeDelta", ">", "for", "DateTime", "<", "Tz", ">", "Output", "DateTime", "<", "Tz", ">", "sub(", "self", "v1", "TimeDelta", "->", "DateTime", "<", "Tz", ">", "self", "checked_sub_signed(", "v1", "expect(", "\"…\"", "§", "<", "Tz", "TimeZone", ">", "Sub", "<", "Duration", ">", "for", "DateTime", "<", "Tz", ">", "Output", "DateTime", "<", "Tz", ">", "sub(", "self", "v1", "Duration", "->", "DateTime", "<", "Tz", ">", "v1", "TimeDelta", "from_std(", "v1", "expect(", "\"…\"", "self", "checked_sub_signed(", "v1", "expect(", "\"…\"", "§", "<", "Tz", "TimeZone", ">", "Sub", "<", "FixedOffset", ">", "for", "DateTime", "<", "Tz", ">", "Output", "DateTime", "<", "Tz", ">", "sub(", "self", "v1", "FixedOffset", "->", "DateTime", "<", "Tz", ">", "self", "v2", "self", "naive_utc(", "checked_sub_offset(", "v1", "expect(", "\"…\"", "self", "§", "<", "Tz", "TimeZone", ">", "Sub", "<", "Months", ">", "for", "DateTime", "<", "Tz", ">", "Output", "DateTime", "<", "Tz", ">", "sub(", "self", "v1", "Months", "->", "Self", "Output", "self", "checked_sub_months(", "v1", "expect(", "\"…\"", "§", "<", "Tz", "TimeZone", ">", "Sub", "<", "DateTime", "<", "Tz", ">>", "for", "DateTime", "<", "Tz", ">", "Output", "TimeDelta", "sub(", "self", "v1", "DateTime", "<", "Tz", ">", "->", "TimeDelta", "self", "signed_duration_since(", "v1", "§", "<", "Tz", "TimeZone", ">", "Sub", "<", "&", "DateTime", "<", "Tz", ">>", "for", "DateTime", "<", "Tz", ">", "Output", "TimeDelta", "sub(", "self", "v1", "&", "DateTime", "<", "Tz", ">", "->", "TimeDelta", "self", "signed_duration_since(", "v1", "§", "<", "Tz", "TimeZone", ">", "Sub", "<", "Days", ">", "for", "DateTime", "<", "Tz", ">", "Output", "DateTime", "<", "Tz", ">", "sub(", "self", "v1", "Days", "->", "Self", "Output", "self", "checked_sub_days(", "v1", "expect(", "\"…\""] := by decide +kernel
 
 /-- src/datetime/mod.rs:impl Timelike -/
 theorem src_datetime_mod_rs_impl_Timelike : C04_src_datetime_mod_rs_impl_Timelike =
@@ -130,6 +158,14 @@ theorem src_naive_date_mod_rs_fn_month0 : C04_src_naive_date_mod_rs_fn_month0 =
 theorem src_naive_date_mod_rs_fn_ordinal0 : C04_src_naive_date_mod_rs_fn_ordinal0 =
     ["&", "self", "->", "u32", "self", "ordinal(", "-", "1"] := by decide +kernel
 
+/-- src/naive/datetime/mod.rs:fn and_local_timezone -/
+theorem src_naive_datetime_mod_rs_fn_and_local_timezone : C04_src_naive_datetime_mod_rs_fn_and_local_timezone =
+    ["<", "Tz", "TimeZone", ">", "&", "self", "v1", "Tz", "->", "MappedLocalTime", "<", "DateTime", "<", "Tz", ">>", "v1", "from_local_datetime(", "self"] := by decide +kernel
+
+/-- src/naive/datetime/mod.rs:fn and_utc -/
+theorem src_naive_datetime_mod_rs_fn_and_utc : C04_src_naive_datetime_mod_rs_fn_and_utc =
+    ["&", "self", "->", "DateTime", "<", "Utc", ">", "DateTime", "from_naive_utc_and_offset(", "*", "self", "Utc"] := by decide +kernel
+
 /-- src/naive/datetime/mod.rs:fn checked_add_offset -/
 theorem src_naive_datetime_mod_rs_fn_checked_add_offset : C04_src_naive_datetime_mod_rs_fn_checked_add_offset =
     ["self", "v1", "FixedOffset", "->", "Option", "<", "NaiveDateTime", ">", "let(", "v2", "v3", "self", "v2", "overflowing_add_offset(", "v1", "v4", "match", "v3", "-", "1", "=>", "try_opt!(", "self", "v4", "pred_opt(", "1", "=>", "try_opt!(", "self", "v4", "succ_opt(", "v5", "=>", "self", "v4", "Some(", "NaiveDateTime", "v4", "v2"] := by decide +kernel
@@ -142,6 +178,10 @@ theorem src_naive_datetime_mod_rs_fn_checked_sub_offset : C04_src_naive_datetime
 theorem src_naive_datetime_mod_rs_fn_overflowing_add_offset : C04_src_naive_datetime_mod_rs_fn_overflowing_add_offset =
     ["self", "v1", "FixedOffset", "->", "NaiveDateTime", "let(", "v2", "v3", "self", "v2", "overflowing_add_offset(", "v1", "v4", "match", "v3", "-", "1", "=>", "self", "v4", "pred_opt(", "unwrap_or(", "NaiveDate", "BEFORE_MIN", "1", "=>", "self", "v4", "succ_opt(", "unwrap_or(", "NaiveDate", "AFTER_MAX", "v5", "=>", "self", "v4", "NaiveDateTime", "v4", "v2"] := by decide +kernel
 
+/-- src/naive/datetime/mod.rs:impl Sub for NaiveDateTime -/
+theorem src_naive_datetime_mod_rs_impl_Sub_for_NaiveDateTime : C04_src_naive_datetime_mod_rs_impl_Sub_for_NaiveDateTime =
+    ["Sub", "<", "TimeDelta", ">", "for", "NaiveDateTime", "Output", "NaiveDateTime", "sub(", "self", "v1", "TimeDelta", "->", "NaiveDateTime", "self", "checked_sub_signed(", "v1", "expect(", "\"…\"", "§", "Sub", "<", "Duration", ">", "for", "NaiveDateTime", "Output", "NaiveDateTime", "sub(", "self", "v1", "Duration", "->", "NaiveDateTime", "v1", "TimeDelta", "from_std(", "v1", "expect(", "\"…\"", "self", "checked_sub_signed(", "v1", "expect(", "\"…\"", "§", "Sub", "<", "FixedOffset", ">", "for", "NaiveDateTime", "Output", "NaiveDateTime", "sub(", "self", "v1", "FixedOffset", "->", "NaiveDateTime", "self", "checked_sub_offset(", "v1", "expect(", "\"…\"", "§", "Sub", "<", "Months", ">", "for", "NaiveDateTime", "Output", "NaiveDateTime", "sub(", "self", "v1", "Months", "->", "Self", "Output", "self", "checked_sub_months(", "v1", "expect(", "\"…\"", "§", "Sub", "<", "NaiveDateTime", ">", "for", "NaiveDateTime", "Output", "TimeDelta", "sub(", "self", "v1", "NaiveDateTime", "->", "TimeDelta", "self", "signed_duration_since(", "v1", "§", "Sub", "<", "Days", ">", "for", "NaiveDateTime", "Output", "NaiveDateTime", "sub(", "self", "v1", "Days", "->", "Self", "Output", "self", "checked_sub_days(", "v1", "expect(", "\"…\""] := by decide +kernel
+
 /-- src/offset/fixed.rs:fn east_opt -/
 theorem src_offset_fixed_rs_fn_east_opt : C04_src_offset_fixed_rs_fn_east_opt =
     ["v1", "i32", "->", "Option", "<", "FixedOffset", ">", "if", "-", "86400", "<", "v1", "&&", "v1", "<", "86400", "Some(", "FixedOffset", "v2", "v1", "else", "None"] := by decide +kernel
@@ -149,6 +189,22 @@ theorem src_offset_fixed_rs_fn_east_opt : C04_src_offset_fixed_rs_fn_east_opt =
 /-- src/offset/fixed.rs:fn west_opt -/
 theorem src_offset_fixed_rs_fn_west_opt : C04_src_offset_fixed_rs_fn_west_opt =
     ["v1", "i32", "->", "Option", "<", "FixedOffset", ">", "if", "-", "86400", "<", "v1", "&&", "v1", "<", "86400", "Some(", "FixedOffset", "v2", "-", "v1", "else", "None"] := by decide +kernel
+
+/-- src/offset/fixed.rs:impl Offset for FixedOffset -/
+theorem src_offset_fixed_rs_impl_Offset_for_FixedOffset : C04_src_offset_fixed_rs_impl_Offset_for_FixedOffset =
+    ["Offset", "for", "FixedOffset", "fix(", "&", "self", "->", "FixedOffset", "*", "self"] := by decide +kernel
+
+/-- src/offset/fixed.rs:impl TimeZone for FixedOffset -/
+theorem src_offset_fixed_rs_impl_TimeZone_for_FixedOffset : C04_src_offset_fixed_rs_impl_TimeZone_for_FixedOffset =
+    ["TimeZone", "for", "FixedOffset", "Offset", "FixedOffset", "from_offset(", "v1", "&", "FixedOffset", "->", "FixedOffset", "*", "v1", "offset_from_local_date(", "&", "self", "v2", "&", "NaiveDate", "->", "MappedLocalTime", "<", "FixedOffset", ">", "MappedLocalTime", "Single(", "*", "self", "offset_from_local_datetime(", "&", "self", "v2", "&", "NaiveDateTime", "->", "MappedLocalTime", "<", "FixedOffset", ">", "MappedLocalTime", "Single(", "*", "self", "offset_from_utc_date(", "&", "self", "v3", "&", "NaiveDate", "->", "FixedOffset", "*", "self", "offset_from_utc_datetime(", "&", "self", "v3", "&", "NaiveDateTime", "->", "FixedOffset", "*", "self"] := by decide +kernel
+
+/-- src/offset/mod.rs:fn and_then -/
+theorem src_offset_mod_rs_fn_and_then : C04_src_offset_mod_rs_fn_and_then =
+    ["<", "U", "F", "FnMut(", "T", "->", "Option", "<", "U", ">>", "self", "v1", "F", "->", "MappedLocalTime", "<", "U", ">", "match", "self", "MappedLocalTime", "None", "=>", "MappedLocalTime", "None", "MappedLocalTime", "Single(", "v2", "=>", "match", "f(", "v2", "Some(", "v3", "=>", "MappedLocalTime", "Single(", "v3", "None", "=>", "MappedLocalTime", "None", "MappedLocalTime", "Ambiguous(", "v4", "v5", "=>", "match(", "f(", "v4", "f(", "v5", "Some(", "v4", "Some(", "v5", "=>", "MappedLocalTime", "Ambiguous(", "v4", "v5", "v6", "=>", "MappedLocalTime", "None"] := by decide +kernel
+
+/-- src/offset/mod.rs:fn earliest -/
+theorem src_offset_mod_rs_fn_earliest : C04_src_offset_mod_rs_fn_earliest =
+    ["self", "->", "Option", "<", "T", ">", "match", "self", "MappedLocalTime", "Single(", "v1", "|", "MappedLocalTime", "Ambiguous(", "v1", "v2", "=>", "Some(", "v1", "v2", "=>", "None"] := by decide +kernel
 
 /-- src/offset/mod.rs:fn from_local_datetime -/
 theorem src_offset_mod_rs_fn_from_local_datetime : C04_src_offset_mod_rs_fn_from_local_datetime =
@@ -158,9 +214,25 @@ theorem src_offset_mod_rs_fn_from_local_datetime : C04_src_offset_mod_rs_fn_from
 theorem src_offset_mod_rs_fn_from_utc_datetime : C04_src_offset_mod_rs_fn_from_utc_datetime =
     ["&", "self", "v1", "&", "NaiveDateTime", "->", "DateTime", "<", "Self", ">", "DateTime", "from_naive_utc_and_offset(", "*", "v1", "self", "offset_from_utc_datetime(", "v1"] := by decide +kernel
 
+/-- src/offset/mod.rs:fn latest -/
+theorem src_offset_mod_rs_fn_latest : C04_src_offset_mod_rs_fn_latest =
+    ["self", "->", "Option", "<", "T", ">", "match", "self", "MappedLocalTime", "Single(", "v1", "|", "MappedLocalTime", "Ambiguous(", "v2", "v1", "=>", "Some(", "v1", "v2", "=>", "None"] := by decide +kernel
+
+/-- src/offset/mod.rs:fn single -/
+theorem src_offset_mod_rs_fn_single : C04_src_offset_mod_rs_fn_single =
+    ["self", "->", "Option", "<", "T", ">", "match", "self", "MappedLocalTime", "Single(", "v1", "=>", "Some(", "v1", "v2", "=>", "None"] := by decide +kernel
+
 /-- src/offset/mod.rs:fn with_ymd_and_hms -/
 theorem src_offset_mod_rs_fn_with_ymd_and_hms : C04_src_offset_mod_rs_fn_with_ymd_and_hms =
     ["&", "self", "v1", "i32", "v2", "u32", "v3", "u32", "v4", "u32", "v5", "u32", "v6", "u32", "->", "MappedLocalTime", "<", "DateTime", "<", "Self", ">>", "match", "NaiveDate", "from_ymd_opt(", "v1", "v2", "v3", "and_then(", "|", "v7", "|", "v7", "and_hms_opt(", "v4", "v5", "v6", "Some(", "v8", "=>", "self", "from_local_datetime(", "&", "v8", "None", "=>", "MappedLocalTime", "None"] := by decide +kernel
+
+/-- src/offset/utc.rs:impl Offset for Utc -/
+theorem src_offset_utc_rs_impl_Offset_for_Utc : C04_src_offset_utc_rs_impl_Offset_for_Utc =
+    ["Offset", "for", "Utc", "fix(", "&", "self", "->", "FixedOffset", "FixedOffset", "east_opt(", "0", "unwrap("] := by decide +kernel
+
+/-- src/offset/utc.rs:impl TimeZone for Utc -/
+theorem src_offset_utc_rs_impl_TimeZone_for_Utc : C04_src_offset_utc_rs_impl_TimeZone_for_Utc =
+    ["TimeZone", "for", "Utc", "Offset", "Utc", "from_offset(", "v1", "&", "Utc", "->", "Utc", "Utc", "offset_from_local_date(", "&", "self", "v2", "&", "NaiveDate", "->", "MappedLocalTime", "<", "Utc", ">", "MappedLocalTime", "Single(", "Utc", "offset_from_local_datetime(", "&", "self", "v2", "&", "NaiveDateTime", "->", "MappedLocalTime", "<", "Utc", ">", "MappedLocalTime", "Single(", "Utc", "offset_from_utc_date(", "&", "self", "v3", "&", "NaiveDate", "->", "Utc", "Utc", "offset_from_utc_datetime(", "&", "self", "v3", "&", "NaiveDateTime", "->", "Utc", "Utc"] := by decide +kernel
 
 /-- src/traits.rs:fn hour12 -/
 theorem src_traits_rs_fn_hour12 : C04_src_traits_rs_fn_hour12 =
@@ -218,10 +290,6 @@ theorem callee_src_naive_date_mod_rs_fn_mdf : C04_callee_src_naive_date_mod_rs_f
 theorem callee_src_naive_date_mod_rs_fn_yof : C04_callee_src_naive_date_mod_rs_fn_yof =
     ["&", "self", "->", "i32", "self", "v1", "get("] := by decide +kernel
 
-/-- callee src/naive/datetime/mod.rs:fn and_local_timezone -/
-theorem callee_src_naive_datetime_mod_rs_fn_and_local_timezone : C04_callee_src_naive_datetime_mod_rs_fn_and_local_timezone =
-    ["<", "Tz", "TimeZone", ">", "&", "self", "v1", "Tz", "->", "MappedLocalTime", "<", "DateTime", "<", "Tz", ">>", "v1", "from_local_datetime(", "self"] := by decide +kernel
-
 /-- callee src/naive/internals.rs:fn from_ol -/
 theorem callee_src_naive_internals_rs_fn_from_ol : C04_callee_src_naive_internals_rs_fn_from_ol =
     ["v1", "i32", "YearFlags(", "v2", "YearFlags", "->", "Mdf", "debug_assert!(", "v1", ">", "1", "&&", "v1", "<=", "MAX_OL", "as", "i32", "Mdf(", "v1", "as", "u32", "+", "OL_TO_MDL", "v1", "as", "usize", "as", "u32", "<<", "3", "|", "v2", "as", "u32"] := by decide +kernel
@@ -241,6 +309,22 @@ theorem callee_src_naive_internals_rs_fn_ordinal_and_flags : C04_callee_src_naiv
 /-- callee src/naive/time/mod.rs:fn hms -/
 theorem callee_src_naive_time_mod_rs_fn_hms : C04_callee_src_naive_time_mod_rs_fn_hms =
     ["&", "self", "->", "u32", "u32", "u32", "v1", "self", "v2", "%", "60", "v3", "self", "v2", "/", "60", "v4", "v3", "%", "60", "v5", "v3", "/", "60", "v5", "v4", "v1"] := by decide +kernel
+
+/-- callee src/offset/mod.rs:fn timestamp_millis_opt -/
+theorem callee_src_offset_mod_rs_fn_timestamp_millis_opt : C04_callee_src_offset_mod_rs_fn_timestamp_millis_opt =
+    ["&", "self", "v1", "i64", "->", "MappedLocalTime", "<", "DateTime", "<", "Self", ">>", "match", "DateTime", "from_timestamp_millis(", "v1", "Some(", "v2", "=>", "MappedLocalTime", "Single(", "self", "from_utc_datetime(", "&", "v2", "naive_utc(", "None", "=>", "MappedLocalTime", "None"] := by decide +kernel
+
+/-- callee src/offset/mod.rs:fn timestamp_opt -/
+theorem callee_src_offset_mod_rs_fn_timestamp_opt : C04_callee_src_offset_mod_rs_fn_timestamp_opt =
+    ["&", "self", "v1", "i64", "v2", "u32", "->", "MappedLocalTime", "<", "DateTime", "<", "Self", ">>", "match", "DateTime", "from_timestamp(", "v1", "v2", "Some(", "v3", "=>", "MappedLocalTime", "Single(", "self", "from_utc_datetime(", "&", "v3", "naive_utc(", "None", "=>", "MappedLocalTime", "None"] := by decide +kernel
+
+/-- callee src/time_delta.rs:fn from_std -/
+theorem callee_src_time_delta_rs_fn_from_std : C04_callee_src_time_delta_rs_fn_from_std =
+    ["v1", "Duration", "->", "Result", "<", "TimeDelta", "OutOfRangeError", ">", "if", "v1", "as_secs(", ">", "MAX", "v2", "as", "u64", "return", "Err(", "OutOfRangeError(", "match", "TimeDelta", "new(", "v1", "as_secs(", "as", "i64", "v1", "subsec_nanos(", "Some(", "v3", "=>", "Ok(", "v3", "None", "=>", "Err(", "OutOfRangeError("] := by decide +kernel
+
+/-- callee src/time_delta.rs:fn subsec_nanos -/
+theorem callee_src_time_delta_rs_fn_subsec_nanos : C04_callee_src_time_delta_rs_fn_subsec_nanos =
+    ["&", "self", "->", "i32", "if", "self", "v1", "<", "0", "&&", "self", "v2", ">", "0", "self", "v2", "-", "NANOS_PER_SEC", "else", "self", "v2"] := by decide +kernel
 
 /-- callee src/weekday.rs:fn days_since -/
 theorem callee_src_weekday_rs_fn_days_since : C04_callee_src_weekday_rs_fn_days_since =
